@@ -232,3 +232,49 @@ def run(R):
         R.floor('C08.R5', 'binary decode sites', nd, 2)
         ve = tonic.body(re.compile(r'<metadata::encoding::Binary as metadata::encoding::value_encoding::Sealed>::values_equal$'))
         R.check(len(ve.calls(name='decode')) == 2, 'C08.R5', 'values_equal-decodes-both', site(ve), 'Binary::values_equal compares decoded bytes (decode calls: %d)' % len(ve.calls(name='decode')))
+
+    # ---------------------------------------------------------------- R7 type-level witnesses (E4)
+    R.describe('C08.R7', 'compile-fail witnesses against the public API: the typed accessors cannot hand a binary entry out as Ascii (or vice versa), '
+                         'an Ascii value cannot be stored under insert_bin (or vice versa), the sanitiser bypass is not callable from outside tonic; each with a compiling twin')
+    with R.guard('C08.R7', 'witness'):
+        import witness
+        U = ['use tonic::metadata::*;', 'let mut map = MetadataMap::new();']
+        W = [
+            dict(id='get_bin_typed', code='E0308', common=U, what='get_bin yields MetadataValue<Binary>',
+                 fail=['let _v: Option<&MetadataValue<Ascii>> = map.get_bin("k-bin");'], twin=['let _v: Option<&MetadataValue<Binary>> = map.get_bin("k-bin");']),
+            dict(id='get_typed', code='E0308', common=U, what='get yields MetadataValue<Ascii>',
+                 fail=['let _v: Option<&MetadataValue<Binary>> = map.get("k");'], twin=['let _v: Option<&MetadataValue<Ascii>> = map.get("k");']),
+            dict(id='insert_bin_rejects_ascii_value', code='E0308', common=U, what='insert_bin takes MetadataValue<Binary>',
+                 fail=['map.insert_bin("k-bin", MetadataValue::<Ascii>::from_static("v"));'], twin=['map.insert_bin("k-bin", MetadataValue::<Binary>::from_bytes(b"v"));']),
+            dict(id='insert_rejects_binary_value', code='E0308', common=U, what='insert takes MetadataValue<Ascii>',
+                 fail=['map.insert("k", MetadataValue::<Binary>::from_bytes(b"v"));'], twin=['map.insert("k", MetadataValue::<Ascii>::from_static("v"));']),
+            dict(id='append_bin_rejects_ascii_value', code='E0308', common=U, what='append_bin takes MetadataValue<Binary>',
+                 fail=['map.append_bin("k-bin", MetadataValue::<Ascii>::from_static("v"));'], twin=['map.append_bin("k-bin", MetadataValue::<Binary>::from_bytes(b"v"));']),
+            dict(id='insert_bin_rejects_ascii_key', code='E0277', common=U, what='insert_bin takes a key convertible to MetadataKey<Binary>',
+                 fail=['let k: MetadataKey<Ascii> = MetadataKey::from_static("k");', 'map.insert_bin(k, MetadataValue::<Binary>::from_bytes(b"v"));'],
+                 twin=['let k: MetadataKey<Binary> = MetadataKey::from_static("k-bin");', 'map.insert_bin(k, MetadataValue::<Binary>::from_bytes(b"v"));']),
+            dict(id='iter_ascii_arm_typed', code='E0308', common=U, what='KeyAndValueRef::Ascii carries Ascii key and value',
+                 fail=['for kv in map.iter() { if let KeyAndValueRef::Ascii(_k, v) = kv { let _v: &MetadataValue<Binary> = v; } }'],
+                 twin=['for kv in map.iter() { if let KeyAndValueRef::Ascii(_k, v) = kv { let _v: &MetadataValue<Ascii> = v; } }']),
+            dict(id='iter_binary_arm_typed', code='E0308', common=U, what='KeyAndValueRef::Binary carries Binary key and value',
+                 fail=['for kv in map.iter() { if let KeyAndValueRef::Binary(k, _v) = kv { let _k: &MetadataKey<Ascii> = k; } }'],
+                 twin=['for kv in map.iter() { if let KeyAndValueRef::Binary(k, _v) = kv { let _k: &MetadataKey<Binary> = k; } }']),
+            dict(id='get_all_bin_typed', code='E0308', common=U, what='get_all_bin iterates MetadataValue<Binary>',
+                 fail=['for v in map.get_all_bin("k-bin").iter() { let _v: &MetadataValue<Ascii> = v; }'], twin=['for v in map.get_all_bin("k-bin").iter() { let _v: &MetadataValue<Binary> = v; }']),
+            dict(id='remove_bin_typed', code='E0308', common=U, what='remove_bin returns MetadataValue<Binary>',
+                 fail=['let _v: Option<MetadataValue<Ascii>> = map.remove_bin("k-bin");'], twin=['let _v: Option<MetadataValue<Binary>> = map.remove_bin("k-bin");']),
+            dict(id='entry_bin_typed', code='E0308', common=U, what='entry_bin yields Entry<Binary>',
+                 fail=['let _e: Entry<\'_, Ascii> = map.entry_bin("k-bin").unwrap();'], twin=['let _e: Entry<\'_, Binary> = map.entry_bin("k-bin").unwrap();']),
+            dict(id='vacant_insert_entry_keeps_encoding', code='E0308', common=U, what='VacantEntry<Binary>::insert_entry returns OccupiedEntry<Binary> (defect F9)',
+                 fail=['if let Entry::Vacant(v) = map.entry_bin("k-bin").unwrap() { let _o: OccupiedEntry<\'_, Ascii> = v.insert_entry(MetadataValue::from_bytes(b"v")); }'],
+                 twin=['if let Entry::Vacant(v) = map.entry_bin("k-bin").unwrap() { let _o: OccupiedEntry<\'_, Binary> = v.insert_entry(MetadataValue::from_bytes(b"v")); }']),
+            dict(id='entry_or_insert_typed', code='E0308', common=U, what='Entry<Binary>::or_insert takes and yields MetadataValue<Binary>',
+                 fail=['let _v: &mut MetadataValue<Binary> = map.entry_bin("k-bin").unwrap().or_insert(MetadataValue::<Ascii>::from_static("v"));'],
+                 twin=['let _v: &mut MetadataValue<Binary> = map.entry_bin("k-bin").unwrap().or_insert(MetadataValue::<Binary>::from_bytes(b"v"));']),
+            dict(id='sanitiser_not_public', code='E0624', common=U, what='into_sanitized_headers (and with it the choice not to sanitise) is crate-private',
+                 fail=['let _h: http::HeaderMap = map.into_sanitized_headers();'], twin=['let _h: http::HeaderMap = map.into_headers();']),
+            dict(id='binary_value_has_no_to_str', code='E0599', common=U, what='a binary value offers no to_str()',
+                 fail=['let v = MetadataValue::<Binary>::from_bytes(b"v");', 'let _ = v.to_str();'], twin=['let v = MetadataValue::<Binary>::from_bytes(b"v");', 'let _ = v.to_bytes();']),
+        ]
+        n = witness.run_witnesses(R, 'C08.R7', W)
+        R.floor('C08.R7', 'witness programs type-checked', n, 2 * len(W))
